@@ -155,11 +155,12 @@ def run(chk):
     import pandas as _pd
     for _ in range(10 if not thorough else 80):
         n_ = rng.randint(4, 14)
-        dfj = _pd.DataFrame({"a": [rng.choice(["CA", "CB", "C"]) for _ in range(n_)], "b": [rng.choice(["x", "y"]) for _ in range(n_)],
+        # (a missing cell is one more value of its column - unpaired reads with only one chain are rows like any other)
+        dfj = _pd.DataFrame({"a": [rng.choice(["CA", "CB", "C", None]) for _ in range(n_)], "b": [rng.choice(["x", "y", None]) for _ in range(n_)],
                             "c": [rng.choice(["1", "2"]) for _ in range(n_)]}, index=rng.sample(range(50), n_))
         cols_ = rng.choice([["a", "b"], ["a", "b", "c"], ["b", "a"]])
         gap = rng.choice(["_", "|"])
-        joined = [gap.join(str(dfj.iloc[i][c]) for c in cols_) for i in range(n_)]
+        joined = [gap.join("" if dfj.iloc[i][c] is None or dfj.iloc[i][c] != dfj.iloc[i][c] else str(dfj.iloc[i][c]) for c in cols_) for i in range(n_)]
         r1 = core.call_real(lambda: float(st.stdpc_joint(dfj, cols_, gap_token=gap)) if gap != "_" else float(st.stdpc_joint(dfj, cols_)))
         r2 = core.call_real(lambda: float(st.stdpc(joined)))
         chk.case(nontrivial_key=("stdpc_joint", tuple(joined)))
@@ -200,9 +201,10 @@ def run(chk):
     cats = [("CAS", "SF"), ("CASS", "F"), ("CA", "SSF")]
     pr = [Fraction(1, 2), Fraction(1, 3), Fraction(1, 6)]
     cats_concat = cats
-    for N, colnames in ((2, ["CDR3A", "CDR3B"]), (3, ["CDR3A", "CDR3B"]), (3, ["cdr3", "cdr3"]), (2, ["v", "v"])):      # (also two columns sharing one label)
-        # with a shared label the categories differ in the FIRST of the same-named columns only
-        cats = cats_concat if colnames[0] != colnames[1] else [("CA", "X"), ("CB", "X"), ("CA", "Y")]
+    for N, colnames in ((2, ["CDR3A", "CDR3B"]), (3, ["CDR3A", "CDR3B"]), (3, ["cdr3", "cdr3"]), (2, ["v", "v"]), (3, ["id", "x"])):   # (also two columns sharing one label)
+        # with a shared label the categories differ in the FIRST of the same-named columns only; numeric ids that differ in the 7th digit
+        cats = (cats_concat if colnames[0] != colnames[1] else [("CA", "X"), ("CB", "X"), ("CA", "Y")]) if colnames[0] != "id" else \
+            [(1234567, 0.5), (1234568, 0.5), (1234569, 0.5)]
         tot = Fraction(0)
         for xs in itertools.product(range(3), repeat=N):
             w = Fraction(1)
